@@ -359,6 +359,10 @@ def correspondence(ctx, cfg_comp, label=None):
         # one line per operation; when its output has not grown for VERIF_STALL seconds it is killed, what it
         # answered so far stays in the file, and the operation it hangs on is the first `<no-output>`: a divergence
         stall = float(os.environ.get("VERIF_STALL", "240"))
+        # ... and an overall bound: an implementation that answers, but only after one of the harness's own
+        # deadlines per operation, must not keep a check busy for hours (what it answered is compared as usual)
+        overall = float(os.environ.get("VERIF_RUN_TIMEOUT", "1200" if ctx.tier == "quick" else "21600"))
+        t_start = time.time()
         errf = os.path.join(ctx.scratch, "%s.stderr" % label)
         with open(opsf) as fi, open(implf, "w") as fo, open(errf, "w") as fe:
             p = subprocess.Popen([vcorr, "run"], stdin=fi, stdout=fo, stderr=fe, text=True, env=GOENV)
@@ -377,11 +381,17 @@ def correspondence(ctx, cfg_comp, label=None):
                         p.wait()
                         hung = True
                         break
+                    if time.time() - t_start > overall:
+                        p.kill()
+                        p.wait()
+                        hung = True
+                        break
         with open(errf) as fe:
             err_txt = fe.read()[-4000:]
         if hung:
             r1 = _Hung("", err_txt)
-            log("  impl runner killed: no answer for %ds — the unanswered operation is reported" % stall)
+            log("  impl runner killed (no answer for %ds, or running for more than %ds) — the unanswered operation is reported"
+                % (stall, overall))
         else:
             r1 = subprocess.CompletedProcess([vcorr, "run"], p.returncode, "", err_txt)
         with open(opsf) as fi, open(modf, "w") as fo:
